@@ -75,6 +75,10 @@ def run(ctx):
         for mtype in ("root", "key_mgr", "pkg_mgr", 5):
             d = M.md(mtype, ver, {"root": M.delegation((0,), 1)}, ts)
             cases.append({"w": wire.case("checkformat_delegating_metadata", {"signatures": {}, "signed": d}), "meta": {"tag": "ver-ts"}})
+    # the signed portion replaced by the list / tuple of its key-value pairs (dict() would silently turn it back into a dictionary)
+    for env in envs[:6]:
+        for conv in (lambda d: [[k, v] for k, v in d.items()], lambda d: [(k, v) for k, v in d.items()], lambda d: tuple([k, v] for k, v in d.items()), lambda d: list(d)):
+            cases.append({"w": wire.case("checkformat_delegating_metadata", {"signatures": env["signatures"], "signed": conv(env["signed"])}), "meta": {"tag": "signed-as-pairs"}})
     P = base["signed"]
     for name, v in E.value_states(0, P, {"o": 1}, 1).items():
         cases.append({"w": wire.case("checkformat_delegating_metadata", {"signatures": {"anykey": v}, "signed": P}), "meta": {"tag": "sigvalue"}})
